@@ -305,7 +305,7 @@ Definition abs_h (h : handle) : shandle :=
                               (h_used h)
         | SrcFile p => SLFile p
         | SrcMerged p => SLFile p
-        end) (h_mode h) (h_cap h).
+        end) (h_mode h) (h_cap h) (h_iters h).
 Definition abs (w : world) : sworld := mkSW (abs_fs (w_fs w)) (option_map abs_h (w_h w)).
 
 Lemma slookup_abs p fs : slookup p (abs_fs fs) = option_map abs_node (flookup p fs).
